@@ -447,7 +447,7 @@ impl Engine for QueryEngine {
                 Err(e) => {
                     let panics = take_panics();
                     out.violation(Violation {
-                        sig: format!("build:{}:{}", l.name, panics.first().map(panic_site).unwrap_or_default()),
+                        sig: format!("build:{}:{}:{}", l.name, if e.contains("deadline") { "hang" } else { "failed" }, panics.first().map(panic_site).unwrap_or_default()),
                         what: format!("building layout {} of table {} failed: {}; panics {:?}", l.name, t.name, e, panics),
                         weight: 1,
                         case: serde_json::to_value(cases[0]).unwrap(),
